@@ -139,6 +139,19 @@ func runC09Case(e *c09Env, c c09Case) (msg string, steps int, reachedTerminal bo
 	}
 	for i, o := range c.Ops {
 		if m.Done {
+			// past the terminal transition only one documented rule remains:
+			// Abort has no effect on a completed bar
+			if m.completed() && o.K == "abort" {
+				callOp(bar, o)
+				steps++
+				if s := check(i, o); s != "" {
+					return s, steps, true
+				}
+				continue
+			}
+			if m.completed() {
+				continue
+			}
 			return "", steps, true
 		}
 		if m.overflows(o) {
@@ -292,6 +305,9 @@ func runC09(job common.Job, em *emitter) {
 					}
 					m.apply(o)
 					ops = append(ops, o)
+				}
+				if m.Done && m.completed() && rng.Chance(1, 2) {
+					ops = append(ops, BOp{K: "abort", F: rng.Bool()})
 				}
 				e := newC09Env(mode)
 				one(e, c09Case{Mode: mode, Total: t, Ops: ops})
